@@ -5,6 +5,7 @@ CONSTANTS
   ThirdChoices = {FALSE}
   DelChoices = {"none"}
   BlackoutChoices = {1}
+  PostChoices = {"none"}
   MatchOnCreate = TRUE
   RematchFix = TRUE
   GenK = 1000000
